@@ -227,6 +227,14 @@ def execute(ctx, case: dict) -> None:
                     addr.items = list(case["group_members"][n])
                     ctx.count("group_members_attached")
             ace.ungroup_ports()
+            if case.get("group_members_alt") and (ace.srcaddr.addrgroup or ace.dstaddr.addrgroup):
+                # another entry with the very same text but its own members (the same line on another device): its pieces are its own
+                other = Ace(case["text"], platform="ios", note="second")
+                for n, addr in enumerate((other.srcaddr, other.dstaddr)):
+                    if addr.addrgroup:
+                        addr.items = list(case["group_members_alt"][n])
+                other.ungroup_ports()
+                ctx.count("same_text_other_members_split")
             for edit in case.get("edits", []):
                 # history on one object: edit through a sub-object setter, then split again
                 try:
@@ -292,6 +300,16 @@ def _twins_and_loose(ctx, case, obj) -> None:
     for text in case.get("loose", []):
         obj.append(Ace(text, platform="ios"))
         ctx.count("entries_added_through_the_list_api")
+    if case.get("handmade") and type(obj).__name__ == "Acl" and not obj.group_by and len(obj.items) >= 3:
+        # a hand-made block in an ACL without group_by (entries before and after it stay loose)
+        from cisco_acl import AceGroup  # pylint: disable=import-outside-toplevel
+
+        a = case["handmade"][0] % (len(obj.items) - 1)
+        b = min(len(obj.items), a + 1 + case["handmade"][1] % 3)
+        chunk = [i for i in obj.items[a:b] if type(i).__name__ in ("Ace", "Remark")]
+        if len(chunk) == b - a and chunk:
+            obj.items[a:b] = [AceGroup(items=chunk, platform="ios")]
+            ctx.count("handmade_blocks")
 
 
 def _multi_ace(rng, allow_neq=True, dups=False) -> tuple:
@@ -333,7 +351,8 @@ def gen_cases(ctx):
         if roll < 0.35:
             text, sig = _multi_ace(rng, dups=rng.random() < 0.12)
             case = {"level": "ace", "text": text, "sig": sig,
-                    "group_members": [["10.1.0.0 0.0.0.255", "host 10.1.1.1"], ["10.2.0.0 0.0.255.255", "host 10.2.2.2", "host 10.2.2.3"]]}
+                    "group_members": [["10.1.0.0 0.0.0.255", "host 10.1.1.1"], ["10.2.0.0 0.0.255.255", "host 10.2.2.2", "host 10.2.2.3"]],
+                    "group_members_alt": [["host 10.7.7.7"], ["10.8.0.0 0.0.0.3", "host 10.8.8.8"]]}
             if rng.random() < 0.5:
                 case["edits"] = [rng.choice([["dstport", "eq 7 8 9"], ["dstport", "eq 11"], ["srcport", "eq 5 6"], ["srcport", "range 3 9"],
                                              ["srcaddr", "host 10.99.0.1"], ["option", ""], ["option", "log"], ["dstport", "neq 5"]])
@@ -384,6 +403,8 @@ def gen_cases(ctx):
             extra["twin"] = [rng.randrange(8), _multi_ace(rng, allow_neq=False)[0]]
         if level == "acl" and rng.random() < 0.2:
             extra["loose"] = [_multi_ace(rng, allow_neq=False)[0] for _ in range(rng.randint(1, 2))]
+        if level == "acl" and not heading and rng.random() < 0.3:
+            extra["handmade"] = [rng.randrange(8), rng.randrange(3)]
         if level == "aceg":
             yield {"level": "aceg", "text": "\n".join(lines), "sig": tuple(sigs[:2]), "n": n, **extra}
         else:
